@@ -4,11 +4,14 @@ import json
 
 from . import common
 from . import ants_common as ac
+from . import ants_mp as mp
 
 PROP = "C07"
 KINDS_QUICK = [("retry-outcomes", "retry", 2400), ("burst-discard", "burst", 1200), ("deadline-ties(allowed-set)", "ties", 1200),
                ("non-cooperative", "stubborn", 400), ("cancelled-dispatcher-context", "pcancel", 1200),
-               ("retry-until-success(huge R)", "hugeR", 200)]
+               ("retry-until-success(huge R)", "hugeR", 200),
+               # several pools in one process, literal option lists (defaults omitted, non-positive values): ants_mp.py
+               ("multi-pool-option-lists", "mp:mixed", 600)]
 
 
 def monitors(r):
@@ -33,7 +36,7 @@ def process(chk, stream, results):
                 chk.cov["traces_validated_against_impl"] += 1
                 if r.hd_ties:
                     chk.cov["tie_cases_allowed_set"] = chk.cov.get("tie_cases_allowed_set", 0) + 1
-        for key, what in monitors(r):
+        for key, what in mp.tag(r, monitors(r)):
             chk.monitor_fail(key, r.line, r.impl[:2000], what)
     if results:
         r = results[0]
@@ -41,7 +44,13 @@ def process(chk, stream, results):
 
 
 def gen_lines(rng, kind, n):
+    if kind.startswith("mp:"):   # several pools per process, literal option lists (ants_mp.py)
+        return [mp.script_line(*mp.gen_script(rng, kind[3:])) for _ in range(n)]
     return [ac.script_line(*ac.gen_script(rng, kind)) for _ in range(n)]
+
+
+def run_batch(chk, binary, kind, lines):
+    return mp.run_cases(chk, binary, lines) if kind.startswith("mp:") else ac.run_cases(chk, binary, lines)
 
 
 def run_streams(chk, binary, kinds, scale):
@@ -54,7 +63,7 @@ def run_streams(chk, binary, kinds, scale):
     for stream, kind, n in kinds:
         lines = gen_lines(chk.rng, kind, n * scale)
         for i in range(0, len(lines), 400):   # a fresh process every few hundred scenarios
-            res = ac.run_cases(chk, binary, lines[i:i + 400])
+            res = run_batch(chk, binary, kind, lines[i:i + 400])
             process(chk, stream, res)
             allres += res
     return allres
@@ -88,6 +97,7 @@ def run(chk):
             res = run_streams(chk, binary, KINDS_QUICK, scale)
             try:
                 chk.cov["vm_compute_crosschecked"] = ac.coq_crosscheck(chk, res, limit=40 if chk.tier == "quick" else 200)
+                chk.cov["vm_compute_crosschecked_option_lists"] = mp.coq_crosscheck(chk, res, limit=40 if chk.tier == "quick" else 200)
             except Exception as ex:
                 chk.infra_errors.append("vm_compute cross-check failed: %r" % (ex,))
             if chk.tier == "thorough":
@@ -112,6 +122,10 @@ def search(chk):
                 chk.monitor_fail("crash", "one of %d scripts of stream %s" % (len(lines[i:i + 400]), stream), str(e)[-800:], "the pool crashed or deadlocked")
                 return
             for line, out in zip(lines[i:i + 400], impl):
+                if kind.startswith("mp:"):
+                    for key, what in mp.monitor_only(line, out, ac.monitor_c07):
+                        chk.monitor_fail(key, line, out[:2000], what)
+                    continue
                 N, tasks = ac.parse_script(line)
                 obs = ac.Obs(out, len(tasks))
                 probs = ac.structural_problems(tasks, obs)
@@ -122,11 +136,12 @@ def search(chk):
 def replay(chk, path):
     rep = json.load(open(path))
     binary = ac.build(chk)
-    cases = [x["case"] for x in rep.get("failing_inputs", []) + rep.get("divergences", []) if isinstance(x.get("case"), str) and x["case"].startswith("ants ")]
-    res = ac.run_cases(chk, binary, cases)
+    allc = [x["case"] for x in rep.get("failing_inputs", []) + rep.get("divergences", []) if isinstance(x.get("case"), str)]
+    cases = [c for c in allc if c.startswith("ants ")] + [c for c in allc if c.startswith("antsmp ")]
+    res = ac.run_cases(chk, binary, [c for c in allc if c.startswith("ants ")]) + mp.run_cases(chk, binary, [c for c in allc if c.startswith("antsmp ")])
     bad = 0
     for r in res:
-        mons = r.problems + monitors(r)
+        mons = r.problems + (mp.tag(r, monitors(r)) if not r.problems else [])
         print("case=%s\n  impl=%s\n  model=%s\n  monitors=%s compare=%s" % (r.line, r.impl[:1500], (r.model_out or "")[:800], mons, r.note))
         if mons or r.note:
             bad += 1
